@@ -8,6 +8,7 @@
  *     <gen> fail <func> <n>          the n-th call (1-based) of <func> since this <gen> was first seen fails
  *                                    (ENOSPC for writes/flushes/truncate/mkdir, EACCES for open, EIO otherwise)
  *     <gen> short fwrite <n>         the n-th fwrite takes half of its bytes and returns the short count (ENOSPC)
+ *     <gen> pause <k>                the process sleeps just before the k-th intercepted call until the control file changes
  *     <gen> kill <k>                 the process dies (SIGKILL-like _exit(137), nothing flushed) just BEFORE the
  *                                    k-th intercepted call (any function) since <gen> was first seen; k counts the
  *                                    same events the log mode prints, so "log" enumerates the crash points
@@ -97,7 +98,7 @@ static void read_ctl(void)
 	strcpy(mode, m);
 	ffunc[0] = 0; fail_n = 0; kill_k = 0;
 	if ((!strcmp(m, "fail") || !strcmp(m, "short")) && k >= 4) { strcpy(ffunc, f); fail_n = a; }
-	if (!strcmp(m, "kill") && k >= 3) kill_k = atol(f);
+	if ((!strcmp(m, "kill") || !strcmp(m, "pause")) && k >= 3) kill_k = atol(f);
 }
 
 /* one intercepted event; returns 1 when the call has to fail */
@@ -117,6 +118,12 @@ static int event(const char *func, const char *what)
 		return 0;
 	}
 	if (!strcmp(mode, "kill") && count_all == kill_k) _exit(137);
+	if (!strcmp(mode, "pause") && count_all == kill_k) {
+		/* wait until the driver rewrites the control file (another generation), at most 20 s */
+		long g0 = cur_gen;
+		for (int i = 0; i < 20000 && cur_gen == g0; i++) { usleep(1000); read_ctl(); }
+		return 0;
+	}
 	if ((!strcmp(mode, "fail") || !strcmp(mode, "short")) && !strcmp(ffunc, func)) {
 		count_func++;
 		if (count_func == fail_n) return !strcmp(mode, "short") ? 2 : 1;
